@@ -108,11 +108,14 @@ pub(crate) struct Client {
 /// than `init_genesis_block` and byte-identical every time.
 pub(crate) struct Template {
     pub dir: PathBuf,
+    /// complete key space of the freshly initialised store
+    pub dump: Vec<(Vec<u8>, Vec<u8>)>,
 }
 
 impl Template {
     pub(crate) fn new(consensus: &Consensus) -> Template {
         let dir = fresh_dir();
+        let dump;
         {
             let storage = Storage::new(&dir);
             storage.init_genesis_block(consensus.genesis_block().data());
@@ -120,8 +123,14 @@ impl Template {
                 use rocksdb::ops::Flush;
                 storage.db.flush().expect("flush");
             }
+            use rocksdb::{ops::Iterate, IteratorMode};
+            dump = storage
+                .db
+                .iterator(IteratorMode::Start)
+                .map(|(k, v)| (k.to_vec(), v.to_vec()))
+                .collect();
         }
-        Template { dir }
+        Template { dir, dump }
     }
 }
 
@@ -129,6 +138,43 @@ impl Client {
     /// start-up sequence of `subcmds.rs` on `dir` (which may already contain a store)
     pub(crate) fn open(cfg: ClientCfg, consensus: Arc<Consensus>, dir: PathBuf) -> Client {
         let storage = Storage::new(&dir);
+        Client::assemble(cfg, consensus, dir, storage)
+    }
+
+    /// Brings this client back to "freshly started on a new store" without touching the file
+    /// system: the key space is rewritten to the template's and every in-memory object is rebuilt.
+    pub(crate) fn recycle(mut self, cfg: ClientCfg, template: &Template) -> Client {
+        self.keep_dir = true;
+        let consensus = Arc::clone(&self.consensus);
+        let dir = self.dir.clone();
+        let storage = self.storage.clone();
+        drop(self);
+        {
+            use rocksdb::{ops::GetPinned, ops::Iterate, ops::WriteOps, IteratorMode, WriteBatch};
+            let mut wb = WriteBatch::default();
+            let template_keys: std::collections::HashSet<&[u8]> =
+                template.dump.iter().map(|(k, _)| k.as_slice()).collect();
+            for (k, v) in storage.db.iterator(IteratorMode::Start) {
+                if !template_keys.contains(&k[..]) {
+                    wb.delete(&k).expect("delete");
+                } else if k.len() < 64 {
+                    let _ = v;
+                }
+            }
+            for (k, v) in &template.dump {
+                // the big genesis transactions never change: rewrite only small records
+                if v.len() <= 4096 {
+                    wb.put(k, v).expect("put");
+                } else if storage.db.get_pinned(k).expect("get").map(|cur| &cur[..] != &v[..]).unwrap_or(true) {
+                    wb.put(k, v).expect("put");
+                }
+            }
+            storage.db.write(&wb).expect("write");
+        }
+        Client::assemble(cfg, consensus, dir, storage)
+    }
+
+    fn assemble(cfg: ClientCfg, consensus: Arc<Consensus>, dir: PathBuf, storage: Storage) -> Client {
         storage.init_genesis_block(consensus.genesis_block().data());
         let pending = Arc::new(RwLock::new(PendingTxs::new(cfg.pending_limit)));
         let peers = Arc::new(Peers::new(
